@@ -1238,6 +1238,8 @@ def render():
             g.sigs[f] = Sig(node)
         except Unsupported as e:
             g.fn_status[f] = "unsupported: %s" % e
+        except Exception as e:          # noqa: BLE001
+            g.fn_status[f] = "unsupported: translator error %s: %s" % (type(e).__name__, e)
     g.rec_set = {f for f in g.recursive_set()}
     rec_fns = [f for f in TARGETS if f in g.rec_set]
     rec_ok = all(g.fn_status[f] == "pending" for f in rec_fns)
@@ -1257,6 +1259,8 @@ def render():
                 declined += [(f, d) for d in dict.fromkeys(dec) if (f, d) not in declined]
             except Unsupported as e:
                 g.fn_status[f] = "unsupported: %s" % e
+            except Exception as e:      # noqa: BLE001 -- a shape the translator did not foresee: fail closed
+                g.fn_status[f] = "unsupported: translator error %s: %s" % (type(e).__name__, e)
         if g.fn_status[f] != "ok":
             text = "(* NOT TRANSLATABLE: %s *)\nDefinition %s_UNTRANSLATABLE : unit := tt." % (
                 comment_safe(g.fn_status[f]), cname)
@@ -1266,7 +1270,7 @@ def render():
     try:
         lines.append(g.class_table())
         status["serialize_class_table"] = "ok"
-    except Unsupported as e:
+    except Exception as e:              # noqa: BLE001 -- Unsupported, or a class statement of an unforeseen shape
         lines.append("(* NOT TRANSLATABLE: %s *)\nDefinition serialize_class_table_UNTRANSLATABLE : unit := tt." % comment_safe(str(e)))
         status["serialize_class_table"] = "unsupported: %s" % e
     lines.append("")
